@@ -84,6 +84,16 @@ func gatedLoop(c *Cfg, n int, gen func(i int) *BatchCase, each func(i int, cs *B
 		if o.Deadlock {
 			b, _ := json.Marshal(cs)
 			c.Rep.Note(fmt.Sprintf("stopped shard after deadlocked case %d (stuck goroutines left behind): %s\n%s", i, b, o.Dump))
+			mine := false
+			for _, f := range judgeBatch(cs, o) {
+				if f.Prop == prop {
+					mine = true
+				}
+			}
+			if !mine {
+				// the stuck case is another property's finding, but the rest of this shard's cases were not run
+				c.Rep.Incon(fmt.Sprintf("shard stopped after case %d got stuck (a finding of another property); the remaining cases of the shard were not run", i))
+			}
 			return
 		}
 	}
@@ -165,6 +175,22 @@ func runC06(c *Cfg) {
 			it[j].K = 1 + rg.IntN(2)
 		}
 		cs := &BatchCase{Family: "random", N: n, C: cc, Budget: 1 + i%3, Items: it, Shape: "results", Build: []string{"builder", "option-then-builder"}[(i/2)%2], ExecStyle: []string{"result", "any"}[i%2], Gated: true, Policy: "random", PSeed: rg.Uint64()}
+		if i%16 == 7 {
+			// far beyond 64 items (size-dependent code paths: chunking, ranges), a few failing items among them
+			cs.Family = "random-large"
+			cs.N = 128 + rg.IntN(200)
+			cs.C = 1 + rg.IntN(8)
+			cs.Budget = 1
+			cs.Items = make([]ItemScript, cs.N)
+			for j := range cs.Items {
+				cs.Items[j].K = 1
+				if rg.IntN(24) == 0 {
+					cs.Items[j].K = 2
+				}
+			}
+			cs.Items[rg.IntN(cs.N-1)].K = 2
+			cs.Build = "builder"
+		}
 		if i%4 == 0 {
 			cs.ErrResult = true // failures reported as (NewErrorResult(e), nil): the error state must reach the slot as it is
 			cs.C = rg.IntN(5)
@@ -217,6 +243,37 @@ func runC06(c *Cfg) {
 		r.Count("stop_cancel."+cs.Family, 1)
 		r.Nontrivial(fmt.Sprintf("%s %d %d %s", cs.Family, cs.N, cs.C, completionOrder(o)))
 	}, "C06")
+	// 2c. retries with a wait: an item sitting in its retry wait is not settled — post comes after its last attempt
+	var rw []*BatchCase
+	for _, cc := range []int{1, 2, 3} {
+		for _, n := range []int{1, cc, cc + 2} {
+			for budget := 2; budget <= 3; budget++ {
+				for _, pat := range []int{0, 1, 2} {
+					it := make([]ItemScript, n)
+					for j := range it {
+						it[j].K = 1
+					}
+					switch pat {
+					case 0:
+						it[n-1].K = budget // the last item succeeds on its last permitted attempt
+					case 1:
+						it[n-1].K = budget + 1 // ... or fails all of them
+						it[0].K = 2
+					case 2:
+						for j := range it {
+							it[j].K = 2
+						}
+					}
+					rw = append(rw, &BatchCase{Family: "retry-wait-settlement", N: n, C: cc, Budget: budget, Items: it, Shape: "results", Build: []string{"builder", "options"}[pat%2], ExecStyle: []string{"result", "any"}[(n+budget)%2], WaitMs: 2 + pat})
+					rw = append(rw, &BatchCase{Family: "retry-wait-settlement", N: n, C: cc, Budget: budget, Items: it, Shape: "results", Build: "builder", ExecStyle: "any", WaitMs: 3, Gated: true, Policy: "holdfail"})
+				}
+			}
+		}
+	}
+	gatedLoop(c, len(rw), func(i int) *BatchCase { return rw[i] }, func(i int, cs *BatchCase, o *BatchObs) {
+		r.Count("retry_wait_settlement.runs", 1)
+		r.Nontrivial(fmt.Sprintf("rw %d %d %d %v %s", cs.N, cs.C, cs.Budget, cs.Gated, completionOrder(o)))
+	}, "C06")
 	// 3. prep shapes, sequential and concurrent, free-running
 	shapes := []string{"results", "any", "strings", "ints", "floats", "maps", "named", "ptrs"}
 	var sc []*BatchCase
@@ -242,6 +299,18 @@ func runC06(c *Cfg) {
 				b = "builder"
 			}
 			sc = append(sc, &BatchCase{Family: "shape", N: n, C: cc, Budget: 1, Items: altItems(n), Shape: sh, Build: b, ExecStyle: "result"})
+		}
+	}
+	for _, n := range []int{128, 200, 300, 1000} { // far beyond 64 items, free-running, failing items among them
+		for _, cc := range []int{0, 2, 8, 16} {
+			it := make([]ItemScript, n)
+			for j := range it {
+				it[j].K = 1
+				if j%37 == 5 || j == n-2 {
+					it[j].K = 2
+				}
+			}
+			sc = append(sc, &BatchCase{Family: "large", N: n, C: cc, Budget: 1, Items: it, Shape: []string{"results", "any"}[cc%3%2], Build: []string{"builder", "compose"}[cc%3%2], ExecStyle: []string{"any", "result"}[(n/100)%2]})
 		}
 	}
 	for n := 0; n <= 64; n++ { // sequential, every size
@@ -374,7 +443,25 @@ func runC07(c *Cfg) {
 		if i%9 == 5 && cs.Shape == "results" {
 			cs.Shape, cs.ExecStyle = "results-with-errors", "result" // items that arrive as error Results are processed like any other
 		}
-		if i%7 == 3 {
+		if i%11 == 6 && cs.Build != "compose" {
+			// the node ran before with another budget (and possibly the other error-handling mode) and was then
+			// re-configured: every item of the later run is treated according to the settings in force now
+			pb := 1 + rg.IntN(4)
+			for pb == budget {
+				pb = 1 + rg.IntN(4)
+			}
+			cs.Prelude = &Prelude{N: 1 + rg.IntN(4), Budget: pb, C: cc, ReVia: []string{"option", "builder"}[rg.IntN(2)], ReMode: rg.IntN(2) == 0}
+			cs.Prelude.Items = genItems(rg, cs.Prelude.N, pb, rg.IntN(3))
+			cs.SetMode = true
+			cs.Family = "scripts-reconfigured-after-run"
+		}
+		if i%13 == 8 {
+			cs.N = 128 + rg.IntN(150) // far beyond 64 items
+			cs.Items = genItems(rg, cs.N, budget, 0)
+			cs.Family = "scripts-large"
+			cs.Gated, cs.SleepUs = false, 0
+		}
+		if i%7 == 3 && cs.Prelude == nil {
 			// the same node object was run before on a larger batch and the caller kept that run's result list
 			pn := n + 1 + rg.IntN(8)
 			cs.Prelude = &Prelude{N: pn, Items: genItems(rg, pn, budget, 0)}
@@ -548,6 +635,33 @@ func runC09(c *Cfg) {
 			r.Sample("stop", map[string]any{"case": cs, "attempts": o.Attempts, "slots": o.Slots, "released": completionOrder(o)})
 		}
 	}, "C09")
+	// the same node object has been run before (a stop-mode run that hit a failure): the later run halts the same
+	// way and its skipped items still carry errors; and the error handling chosen BEFORE the concurrency
+	var ca []*BatchCase
+	for _, n := range []int{3, 6, 16} {
+		for cc := 0; cc <= 4; cc++ {
+			for _, f := range []int{0, 1, n - 2} {
+				it := make([]ItemScript, n)
+				for j := range it {
+					it[j].K = 1
+				}
+				it[f].K = 2
+				pit := make([]ItemScript, 4)
+				for j := range pit {
+					pit[j].K = 1
+				}
+				pit[1].K = 2
+				ca = append(ca, &BatchCase{Family: "stop-after-earlier-stopped-run", N: n, C: cc, Stop: true, SetMode: true, Budget: 1, Items: it, Shape: "results", Build: []string{"builder", "options"}[f%2], ExecStyle: []string{"result", "any"}[cc%2], Gated: true, Policy: "holdfail", Prelude: &Prelude{N: 4, Items: pit}})
+				for _, stop := range []bool{true, false} {
+					ca = append(ca, &BatchCase{Family: "mode-then-concurrency", N: n, C: cc, Stop: stop, SetMode: true, Budget: 1, Items: it, Shape: "results", Build: "builder-mode-first", ExecStyle: []string{"result", "any"}[(cc+f)%2], Gated: true, Policy: []string{"holdfail", "first", "random"}[(n+cc)%3], PSeed: uint64(n*100 + cc)})
+				}
+			}
+		}
+	}
+	gatedLoop(c, len(ca), func(i int) *BatchCase { return ca[i] }, func(i int, cs *BatchCase, o *BatchObs) {
+		r.Count("runs."+cs.Family, 1)
+		r.Nontrivial(fmt.Sprintf("%s %d %d %v %s", cs.Family, cs.N, cs.C, cs.Stop, completionOrder(o)))
+	}, "C09")
 	// cancellation with the other in-flight items held parked and a 150 ms dwell: whatever post is given for items
 	// that are still inside exec, or were never started, must not look like a success
 	var cd []*BatchCase
@@ -680,6 +794,53 @@ func runC11(c *Cfg) {
 		if cs.C > 1 && unexec > 0 && cs.N <= 5 && r.SampleWanted("cancel") {
 			r.Sample("cancel", map[string]any{"case": cs, "attempts": o.Attempts, "slots": o.Slots, "err": o.ErrText, "post_calls": o.PostCalls, "released": completionOrder(o)})
 		}
+	}, "C11")
+	// tiny non-zero retry waits (the wait is over at once: the cancellation must still be noticed), batches of 64 and
+	// more items, and a real deadline that expires while items sit in an hour-long retry wait
+	var cx []*BatchCase
+	for rep := 0; rep < c.Pick(6, 60); rep++ {
+		for _, n := range []int{1, 3} {
+			for cc := 0; cc <= 3; cc++ {
+				for _, stop := range []bool{false, true} {
+					for item := 0; item < n; item++ {
+						for att := 1; att <= 2; att++ {
+							it := make([]ItemScript, n)
+							for j := range it {
+								it[j].K = 4
+							}
+							cx = append(cx, &BatchCase{Family: "in-exec-tiny-wait", N: n, C: cc, Stop: stop, SetMode: true, Budget: 3, Items: it, Shape: "results", Build: "builder", ExecStyle: []string{"result", "any"}[(rep+att)%2], Gated: true, Policy: []string{"holdfail", "random", "first"}[rep%3], PSeed: uint64(rep*1000 + len(cx)), WaitNs: 1 + (rep%2)*999, Cancel: &CancelSpec{Kind: []string{"cancel", "deadline", "cause"}[rep%3], Item: item, Attempt: att}})
+						}
+					}
+				}
+			}
+		}
+	}
+	for _, n := range []int{64, 100, 257} {
+		for _, cc := range []int{1, 3, 8} {
+			for _, stop := range []bool{true, false} {
+				it := make([]ItemScript, n)
+				for j := range it {
+					it[j].K = 1
+				}
+				cx = append(cx, &BatchCase{Family: "large-pre", N: n, C: cc, Stop: stop, SetMode: true, Budget: 1, Items: it, Shape: "results", Build: "builder", ExecStyle: "result", Gated: true, Policy: "first", Cancel: &CancelSpec{Kind: "pre-cancel"}})
+				cx = append(cx, &BatchCase{Family: "large-in-exec", N: n, C: cc, Stop: stop, SetMode: true, Budget: 1, Items: it, Shape: "results", Build: "builder", ExecStyle: "any", Gated: true, Policy: "holdfail", Cancel: &CancelSpec{Kind: "cancel", Item: 2, Attempt: 1}})
+			}
+		}
+	}
+	for _, cc := range []int{0, 1, 3} {
+		for _, stop := range []bool{false, true} {
+			for _, n := range []int{1, 4} {
+				it := make([]ItemScript, n)
+				for j := range it {
+					it[j].K = 4
+				}
+				cx = append(cx, &BatchCase{Family: "real-deadline-during-hour-wait", N: n, C: cc, Stop: stop, SetMode: true, Budget: 3, Items: it, Shape: "results", Build: "builder", ExecStyle: "result", WaitHour: true, Cancel: &CancelSpec{Kind: "real-deadline", DeadlineMs: 60}})
+			}
+		}
+	}
+	gatedLoop(c, len(cx), func(i int) *BatchCase { return cx[i] }, func(i int, cs *BatchCase, o *BatchObs) {
+		r.Count("runs."+cs.Family, 1)
+		r.Nontrivial(fmt.Sprintf("%s %d %d %v %+v %s", cs.Family, cs.N, cs.C, cs.Stop, *cs.Cancel, completionOrder(o)))
 	}, "C11")
 	// free-running: cancel inside exec and from a helper goroutine during the 1-hour wait
 	nr := c.Pick(120, 2000)
